@@ -150,6 +150,29 @@ pub fn run(args: &[String]) -> Vec<String> {
             format!("maps {}->{}, fds {}->{}", before.0, after.0, before.1, after.1),
         ));
     }
+    // 2b. streams dropped while a thread unwinds from a panic are released too
+    {
+        let before = (count_maps(), count_fds());
+        let ths: Vec<_> = (0..6)
+            .map(|t| {
+                std::thread::spawn(move || {
+                    let _alive: Vec<_> = (0..5).map(|k| Buffer::<u32>::new((1 + (t + k) % 3) * 4096).unwrap()).collect();
+                    let (_w, _r) = rustradio::stream::new_stream::<u8>();
+                    panic!("scripted panic with live streams");
+                })
+            })
+            .collect();
+        for t in ths {
+            let _ = t.join();
+        }
+        let after = (count_maps(), count_fds());
+        out.push(line(
+            "drop_during_unwind",
+            "threads=6 streams=6 each",
+            after.0 == before.0 && after.1 == before.1,
+            format!("maps {}->{}, fds {}->{}", before.0, after.0, before.1, after.1),
+        ));
+    }
     // 3. refused set-ups leave nothing behind
     {
         let before = (count_maps(), count_fds());
